@@ -1586,6 +1586,12 @@ func (db *DB) RequestWithContext(ctx context.Context, req *command.Request, xTim
 					Error: err.Error(),
 				},
 			})
+			// A statement which cannot even be prepared is a failed statement,
+			// so inside a transaction it must abort the transaction like any
+			// other failure, not let the remaining statements commit.
+			if abortOnError(err) {
+				break
+			}
 			continue
 		}
 
